@@ -195,14 +195,17 @@ PropDef(CT, c, p) == CT[c].props[CHOOSE j \in 1..Len(CT[c].props) : CT[c].props[
 ResetOne(CT, o, n) ==
   IF n \in AttrSet(CT, o.c) THEN [o EXCEPT !.a[n] = DefaultOf(CT, o.c, n)]
   ELSE [o EXCEPT !.x[n] = PMissing, !.ov[n] = FALSE]
+InvDev == {}            \* named deviations of the invalidation rule that are switched on (none: the intended design)
 RECURSIVE InvalidateSet(_, _, _, _)
 InvalidateSet(CT, o, todo, done) ==
   IF todo = {} THEN o
   ELSE LET n == CHOOSE m \in todo : TRUE
            changed == (n \in AttrSet(CT, o.c)) \/ ~IsMissing(o.x[n])
            o2 == ResetOne(CT, o, n)
-           \* deleting an entry that exists propagates further; a managed attribute reset always propagates
-           more == IF changed THEN Dependants(CT, o.c, n) \ (done \cup {n}) ELSE {}
+           \* invalidation always propagates to the dependants of a dependant, whether or not that dependant currently
+           \* holds a stored value (a non-caching property in the middle of a chain still "changes");
+           \* Dev "inv_stops_at_empty" = the pre-fix rule (propagate only when an entry was actually deleted)
+           more == IF changed \/ "inv_stops_at_empty" \notin InvDev THEN Dependants(CT, o.c, n) \ (done \cup {n}) ELSE {}
        IN InvalidateSet(CT, o2, (todo \ {n}) \cup more, done \cup {n})
 Invalidate(CT, o, a) == InvalidateSet(CT, o, Dependants(CT, o.c, a) \ {a}, {a})
 
